@@ -162,7 +162,7 @@ func ruleC13GlobalLockset(c *Ctx) {
 // are synchronisation primitives themselves.
 func concurrencySafeType(t types.Type) bool {
 	s := t.String()
-	for _, ok := range []string{"*regexp.Regexp", "sync.Mutex", "sync.RWMutex", "sync.WaitGroup", "sync.Once", "sync.Map", "sync/atomic."} {
+	for _, ok := range []string{"*regexp.Regexp", "*strings.Replacer", "sync.Mutex", "sync.RWMutex", "sync.WaitGroup", "sync.Once", "sync.Map", "sync/atomic."} {
 		if strings.Contains(s, ok) {
 			return true
 		}
